@@ -262,9 +262,82 @@ func boundsObligations(p *load.Program, fn *ssa.Function) []panicOb {
 			if !x.CommaOk {
 				out = append(out, panicOb{Instr: i, Kind: "assert", Desc: facts.Term(x), Why: "unchecked type assertion"})
 			}
+		case *ssa.MakeSlice:
+			// make([]T, len, cap) panics on a negative length or capacity (and on cap < len)
+			for _, sz := range []ssa.Value{x.Len, x.Cap} {
+				if nonNegative(sz, facts.At(i, nil), 0) {
+					continue
+				}
+				out = append(out, panicOb{Instr: i, Kind: "makeslice", Desc: "make(" + facts.Term(sz) + ")", Why: "size " + facts.Term(sz) + " is not shown to be non-negative (a difference such as len(a)-len(b) is negative when b is the larger one): make panics"})
+			}
+			if x.Len != x.Cap && facts.Term(x.Len) != facts.Term(x.Cap) {
+				lk, okL := constInt(x.Len)
+				if !(okL && lk == 0) {
+					if ck, okC := constInt(x.Cap); !(okL && okC && lk <= ck) {
+						out = append(out, panicOb{Instr: i, Kind: "makeslice", Desc: "make(len " + facts.Term(x.Len) + ", cap " + facts.Term(x.Cap) + ")", Why: "cap >= len is not established"})
+					}
+				}
+			}
 		}
 	})
 	return out
+}
+
+// nonNegative: v is an integer that cannot be negative — a constant >= 0, len/cap, an unsigned or
+// widened-unsigned value, or a sum/product/quotient of such; a difference only under a must-hold
+// fact that orders its operands.
+func nonNegative(v ssa.Value, fs []facts.Fact, depth int) bool {
+	if depth > 6 {
+		return false
+	}
+	if k, ok := constInt(v); ok {
+		return k >= 0
+	}
+	if b, ok := v.Type().Underlying().(*types.Basic); ok && b.Info()&types.IsUnsigned != 0 {
+		return true
+	}
+	switch x := v.(type) {
+	case *ssa.Call:
+		n := facts.CalleeName(&x.Call)
+		// lengths: builtins and the documented non-negative Len methods of the byte containers
+		return n == "len" || n == "cap" || n == "(*bytes.Reader).Len" || n == "(*bytes.Buffer).Len" || n == "(*strings.Reader).Len"
+	case *ssa.Convert:
+		if b, ok := x.X.Type().Underlying().(*types.Basic); ok && b.Info()&types.IsUnsigned != 0 {
+			// widening or same-size conversion of an unsigned value to int (64-bit) keeps it
+			// non-negative for 8/16/32-bit sources
+			switch b.Kind() {
+			case types.Uint8, types.Uint16, types.Uint32:
+				return true
+			}
+			return false
+		}
+		return nonNegative(x.X, fs, depth+1)
+	case *ssa.BinOp:
+		switch x.Op {
+		case token.ADD, token.MUL, token.QUO, token.REM, token.SHR:
+			return nonNegative(x.X, fs, depth+1) && nonNegative(x.Y, fs, depth+1)
+		case token.SUB:
+			// a - b with the fact b <= a
+			a, b := facts.Term(x.X), facts.Term(x.Y)
+			for _, f := range fs {
+				if f.Atom == facts.CmpAtom(b, token.LEQ, a) || f.Atom == facts.CmpAtom(b, token.LSS, a) {
+					return nonNegative(x.Y, fs, depth+1)
+				}
+			}
+			return false
+		}
+	case *ssa.Phi:
+		for _, e := range x.Edges {
+			if e == v || !nonNegative(e, fs, depth+1) {
+				if e == v {
+					continue
+				}
+				return false
+			}
+		}
+		return true
+	}
+	return false
 }
 
 func ok2(o panicOb) bool { return o.OK }
